@@ -205,6 +205,8 @@ class UnionUnpackerBuilder(AbstractUnpackerBuilder):
                         match_type = get_type_origin(match_type)
                     elif is_new_type(match_type):
                         match_type = match_type.__supertype__
+                    elif match_type is typing_extensions.LiteralString:
+                        match_type = str
                     else:
                         break
                 match_type_name = clean_id(type_name(match_type))
